@@ -5,7 +5,7 @@ import time
 
 from . import common as C
 
-QUICK = ["K1", "K2", "K5", "K6", "K7", "K8", "K9", "K14", "K16", "K17"]
+QUICK = ["K1", "K2", "K4", "K5", "K6", "K7", "K8", "K9", "K14", "K16", "K17"]
 ALL = ["K1", "K2", "K3", "K4", "K5", "K6", "K7", "K8", "K9", "K10", "K11", "K12", "K13", "K14", "K15", "K16", "K17", "K18"]
 
 ASSUMPTIONS = [
